@@ -235,7 +235,7 @@ func c10SafeOrigin(lay c10Layout) int {
 	L := len(lay.seq)
 	g := lay.enz.geo
 	n := len(g.Site)
-	bad := make([]bool, L) // bad[o]: the boundary before base o is inside something
+	bad := make([]bool, L)                  // bad[o]: the boundary before base o is inside something
 	markInside := func(start, length int) { // boundaries strictly inside [start, start+length)
 		for i := 1; i < length; i++ {
 			bad[((start+i)%L+L)%L] = true
